@@ -366,7 +366,8 @@ func (w *hpWorld) history(r *h.Report, x *hpRun, ops []string) bool {
 				return false
 			}
 			for _, p := range w.ev.take() {
-				if p.Function == t.fn {
+				// the payload of this very datagram (guard against a late event of an earlier step)
+				if p.Function == t.fn && hpEqList(t.decAny(p.Data), wr.items) {
 					input = p.Data
 				}
 			}
@@ -379,6 +380,19 @@ func (w *hpWorld) history(r *h.Report, x *hpRun, ops []string) bool {
 		if kind == "lupd" && v == hpPanic && want[0] == "ok=1" && wr.fdk == "F" {
 			w.notes["local update applied, then panic while building the notification: "+notePanic]++
 			v = hpOK
+		}
+		// SPEC monitors first (implementation only)
+		var after [][]int
+		if v != hpPanic {
+			after = s.read()
+			for _, hd := range s.hs {
+				if hpJSON(hd.val) != hd.js {
+					changed++
+				}
+			}
+			t.c11Handles(r, done, wr, s.hs)
+			t.c11Store(r, done, wr, before, after, v)
+			t.c04(r, done, wr, before, after, v)
 		}
 		if hpVerdictS(v) != want[0] {
 			r.Mismatch(done, hpVerdictS(v), strings.Join(want, " "), fmt.Sprintf("world: verdict of %s (%s)", op, t.fn))
@@ -394,15 +408,11 @@ func (w *hpWorld) history(r *h.Report, x *hpRun, ops []string) bool {
 			if kind == "write" || kind == "notify" || kind == "reply" {
 				hk = "payload"
 			}
-			hd := reg(inID, hk, input)
-			if hk == "input" {
-				hd.abs = hpCloneList(wr.items)
-			}
+			reg(inID, hk, input)
 		}
 		if kind == "rupd" && retID != "nil" && retID != inID && ret != nil {
 			reg(retID, "ret", ret)
 		}
-		after := s.read()
 		// correspondence: every retained value and the store
 		parts := strings.Split(s.d.Ask("dump"), "|")
 		for _, hd := range s.hs {
@@ -421,15 +431,6 @@ func (w *hpWorld) history(r *h.Report, x *hpRun, ops []string) bool {
 			r.Mismatch(done, got, wantS, fmt.Sprintf("world: data of %s after %s", t.fn, op))
 			return false
 		}
-		// SPEC monitors
-		for _, hd := range s.hs {
-			if hpJSON(hd.val) != hd.js {
-				changed++
-			}
-		}
-		t.c11Handles(r, done, wr, s.hs)
-		t.c11Store(r, done, wr, before, after, v)
-		t.c04(r, done, wr, before, after, v)
 		if kind == "write" && oi == len(ops)-2 {
 			for _, k := range alts {
 				s2 := t.mutateUnaddressed(wr, before, k)
@@ -624,18 +625,44 @@ func hpWorldRun(r *h.Report, x *hpRun) {
 	// sample of the C04 grid through write datagrams
 	for si, ty := range ts {
 		stores, writes := hpGridStores(ty), hpGridWrites(ty)
-		for i := 0; i < h.Scale(150, 2500); i++ {
+		for i := 0; i < h.Scale(150, 4000); i++ {
 			s, wr := stores[rng.Intn(len(stores))], writes[rng.Intn(len(writes))]
 			tail := strings.TrimPrefix(wr.line(), "upd 1 1 ")
 			w.history(r, x, []string{"world", fmt.Sprintf("lset %d %s", si, hpListS(s)), "alt 0 1 2 3", fmt.Sprintf("write %d %s", si, tail)})
 		}
 	}
 	g := &hpGen{rng: rng}
-	for i := 0; i < h.Scale(120, 1500); i++ {
+	for i := 0; i < h.Scale(120, 4000); i++ {
 		w.history(r, x, hpWorldGen(g, ts, 10+rng.Intn(21)))
 	}
 	for k, n := range w.notes {
 		r.Info["world: "+k] = n
+	}
+	// minimise the witnesses found in the world (same world, stores are emptied by the leading `world` op)
+	for _, sf := range append([]h.SpecFailure{}, r.SpecFailures...) {
+		if len(sf.Ops) < 5 || sf.Ops[0] != "world" {
+			continue
+		}
+		key := sf.Key
+		small := h.Shrink(hpStripComments(sf.Ops), func(ops []string) bool {
+			q := h.Quiet()
+			w.history(q, x, ops)
+			return q.HasSpecFail(key)
+		})
+		r.ReplaceSpecFailOps(key, small)
+	}
+	if len(r.Mismatches) > 0 && len(r.Mismatches[0].Ops) > 0 && r.Mismatches[0].Ops[0] == "world" {
+		mm := r.Mismatches[0]
+		small := h.Shrink(hpStripComments(mm.Ops), func(ops []string) bool {
+			q := h.Quiet()
+			w.history(q, x, ops)
+			return q.MismatchN > 0
+		})
+		q := h.Quiet()
+		w.history(q, x, small)
+		if q.MismatchN > 0 {
+			r.ReplaceMismatch(0, small, q.Mismatches[0].Impl, q.Mismatches[0].Model)
+		}
 	}
 }
 
